@@ -6,6 +6,7 @@ package main
 
 import (
 	"fmt"
+	"strconv"
 	"strings"
 
 	"github.com/tetratelabs/wazero/api"
@@ -117,92 +118,99 @@ func (m *model) tcall(i uint32) string {
 
 // ---------------------------------------------------------------- observation
 
-type obsItem struct{ Label, Val string }
+// A probe is one read of one shared object through one side (guest accessor) or through the host API.
+type probe struct {
+	Label string
+	Side  string
+	Fn    string // guest accessor; "" for host reads
+	Arg   uint64
+	NArgs int
+	Host  int // 1 mem.Size, 2 mem.ReadByte(Arg), 3 g.Get
+	Want  string
+}
 
 var probeAddrs = []uint32{addrLo, addrLo2, addrHi}
 
-// observe lists every read of every shared object through every live side (guest accessors) and through
-// the host API of E and I. skip marks reads that are not performed.
-func (m *model) observe() (o []obsItem) {
+func u(v uint64) string { return strconv.FormatUint(v, 10) }
+
+
+func label(side, what string, arg uint64, hasArg bool) string {
+	k := side + "." + what
+	if hasArg {
+		k += "@" + u(arg)
+	}
+	return k
+}
+
+// observe lists every read of every shared object through every live side and through the host API of E
+// and I, with the value the model predicts. Null table slots are read with table.get/ref.is_null, non-null
+// slots are called (identity of the function), the first slot beyond the table must trap.
+func (m *model) observe() (o []probe) {
 	for _, s := range m.cfg.sides() {
 		if !m.alive[s] {
 			continue
 		}
-		o = append(o, obsItem{s + ".size", fmt.Sprintf("ok:%d", m.pages)})
+		o = append(o, probe{Label: s + ".size", Side: s, Fn: "size", Want: "ok:" + u(uint64(m.pages))})
 		for _, a := range probeAddrs {
-			o = append(o, obsItem{fmt.Sprintf("%s.load@%d", s, a), m.load(a)})
+			o = append(o, probe{Label: label(s, "load", uint64(a), true), Side: s, Fn: "load", Arg: uint64(a), NArgs: 1, Want: m.load(a)})
 		}
-		o = append(o, obsItem{s + ".gget", fmt.Sprintf("ok:%d", m.g)})
-		o = append(o, obsItem{s + ".vget", fmt.Sprintf("ok:%d,%d", m.v[0], m.v[1])})
-		o = append(o, obsItem{s + ".tsize", fmt.Sprintf("ok:%d", len(m.tab))})
+		o = append(o, probe{Label: s + ".gget", Side: s, Fn: "gget", Want: "ok:" + u(uint64(m.g))})
+		o = append(o, probe{Label: s + ".vget", Side: s, Fn: "vget", Want: "ok:" + u(m.v[0]) + "," + u(m.v[1])})
+		o = append(o, probe{Label: s + ".tsize", Side: s, Fn: "tsize", Want: "ok:" + u(uint64(len(m.tab)))})
 		for i := uint32(0); i < tabMax; i++ {
-			val := "skipped"
-			if i >= uint32(len(m.tab)) || m.ownerCallable(m.tab[i]) {
-				val = m.tcall(i)
+			switch {
+			case i > uint32(len(m.tab)):
+			case i == uint32(len(m.tab)):
+				o = append(o, probe{Label: label(s, "tnull", uint64(i), true), Side: s, Fn: "tnull", Arg: uint64(i), NArgs: 1, Want: "trap:table"})
+			case m.tab[i] == "":
+				o = append(o, probe{Label: label(s, "tnull", uint64(i), true), Side: s, Fn: "tnull", Arg: uint64(i), NArgs: 1, Want: "ok:1"})
+			case m.ownerCallable(m.tab[i]):
+				o = append(o, probe{Label: label(s, "tcall", uint64(i), true), Side: s, Fn: "tcall", Arg: uint64(i), NArgs: 1, Want: m.tcall(i)})
+			default: // function of a closed instance: only its non-nullness is read
+				o = append(o, probe{Label: label(s, "tnull", uint64(i), true), Side: s, Fn: "tnull", Arg: uint64(i), NArgs: 1, Want: "ok:0"})
 			}
-			o = append(o, obsItem{fmt.Sprintf("%s.tcall@%d", s, i), val})
 		}
 	}
 	for _, s := range []string{"E", "I"} {
 		if !m.alive[s] {
 			continue
 		}
-		o = append(o, obsItem{"host" + s + ".mem.Size", fmt.Sprint(uint64(m.pages) * 65536)})
+		o = append(o, probe{Label: "host" + s + ".mem.Size", Side: s, Host: 1, Want: u(uint64(m.pages) * 65536)})
 		for _, a := range probeAddrs {
 			val := "oob"
 			if uint64(a) < uint64(m.pages)*65536 {
-				val = fmt.Sprint(m.mem[a])
+				val = u(uint64(m.mem[a]))
 			}
-			o = append(o, obsItem{fmt.Sprintf("host%s.mem.ReadByte@%d", s, a), val})
+			o = append(o, probe{Label: label("host"+s, "mem.ReadByte", uint64(a), true), Side: s, Host: 2, Arg: uint64(a), Want: val})
 		}
-		o = append(o, obsItem{"host" + s + ".g.Get", fmt.Sprint(m.g)})
+		o = append(o, probe{Label: "host" + s + ".g.Get", Side: s, Host: 3, Want: u(uint64(m.g))})
 	}
 	return
 }
 
-func (w *world) observe(m *model) (o []obsItem) {
-	for _, s := range m.cfg.sides() {
-		if !m.alive[s] {
-			continue
+// read performs one probe on the implementation.
+func (w *world) read(p *probe) string {
+	switch p.Host {
+	case 0:
+		if p.NArgs == 1 {
+			return w.callS(p.Side, p.Fn, p.Arg)
 		}
-		o = append(o, obsItem{s + ".size", w.callS(s, "size")})
-		for _, a := range probeAddrs {
-			o = append(o, obsItem{fmt.Sprintf("%s.load@%d", s, a), w.callS(s, "load", uint64(a))})
-		}
-		o = append(o, obsItem{s + ".gget", w.callS(s, "gget")})
-		o = append(o, obsItem{s + ".vget", w.callS(s, "vget")})
-		o = append(o, obsItem{s + ".tsize", w.callS(s, "tsize")})
-		for i := uint32(0); i < tabMax; i++ {
-			val := "skipped"
-			if i >= uint32(len(m.tab)) || m.ownerCallable(m.tab[i]) {
-				val = w.callS(s, "tcall", uint64(i))
-			}
-			o = append(o, obsItem{fmt.Sprintf("%s.tcall@%d", s, i), val})
-		}
-	}
-	for _, s := range []string{"E", "I"} {
-		if !m.alive[s] {
-			continue
-		}
-		mod := w.mods[s]
+		return w.callS(p.Side, p.Fn)
+	case 1:
+		mod := w.mods[p.Side]
 		mem := mod.ExportedMemory("mem")
-		if s == "I" {
-			// the importer's own view: api.Module.Memory() must be the same object as the re-export
-			if mod.Memory() != mem {
-				o = append(o, obsItem{"hostI.Memory()!=ExportedMemory", "differs"})
-			}
+		if mod.Memory() != mem {
+			return "Module.Memory() is not the exported memory"
 		}
-		o = append(o, obsItem{"host" + s + ".mem.Size", fmt.Sprint(mem.Size())})
-		for _, a := range probeAddrs {
-			val := "oob"
-			if b, ok := mem.ReadByte(a); ok {
-				val = fmt.Sprint(b)
-			}
-			o = append(o, obsItem{fmt.Sprintf("host%s.mem.ReadByte@%d", s, a), val})
+		return u(uint64(mem.Size()))
+	case 2:
+		if b, ok := w.mods[p.Side].ExportedMemory("mem").ReadByte(uint32(p.Arg)); ok {
+			return u(uint64(b))
 		}
-		o = append(o, obsItem{"host" + s + ".g.Get", fmt.Sprint(mod.ExportedGlobal("g").Get())})
+		return "oob"
+	default:
+		return u(w.mods[p.Side].ExportedGlobal("g").Get())
 	}
-	return
 }
 
 // ---------------------------------------------------------------- operations
